@@ -25,7 +25,8 @@ ASSUMPTIONS = ["trailing empty layers (algorithm simple with fewer labels than l
 def plan(tier, seed):
     k = 8 if tier == "quick" else 48
     return [{"kind": "direct", "sub": i, "n": 250 if tier == "quick" else 2500} for i in range(k)] + \
-           [{"kind": "engine", "sub": i, "n": 150 if tier == "quick" else 1500} for i in range(k)]
+           [{"kind": "engine", "sub": i, "n": 150 if tier == "quick" else 1500} for i in range(k)] + \
+           [{"kind": "insitu-exports", "n": 300 if tier == "quick" else 4000}]
 
 
 def floors(tier):
@@ -150,6 +151,28 @@ def worker(ctx, shard):
                     if k not in opts and k in first and rng.random() < 0.6:
                         opts[k] = None if k == "maxPos" else 0  # explicitly remove / reset the bound of the first configuration
             run_engine(ctx, mon, labels, opts, tag, first=first)
+    elif shard["kind"] == "insitu-exports" or (shard["kind"] == "replay-case" and "spec" in shard["case"]):
+        from props import export_common as EC
+        from workloads import tl as TL
+
+        class _M(object):
+            layout = mon
+
+        specs = [shard["case"]["spec"]] if shard["kind"] == "replay-case" else None
+        for k in range(len(specs) if specs else shard["n"]):
+            if ctx.should_stop():
+                break
+            spec = specs[k] if specs else TL.gen_spec(rng)
+            res = EC.export_one(spec, "svg", _M, parse=False)
+            rec = res.get("compute_record")
+            if res["exc"] is not None or rec is None or rec["distribute"] is None or rec["distribute"]["layers"] is None:
+                continue
+            eo = rec["options"]
+            mn, mx = eo.get("minPos", 0), eo.get("maxPos")
+            lw = (mx - mn) if (mn is not None and mx is not None) else None
+            ctx.stratum("insitu-exports", generated=1, judged=1, held=1)
+            judge_one(ctx, rec["labels"], rec["distribute"]["layers"], eo.get("algorithm"), lw, eo.get("density"), eo.get("nodeSpacing"), eo.get("stubWidth"),
+                      {"driver": "insitu-export", "spec": spec}, force=rec["force"])
     elif shard["kind"] == "replay-case":
         c = shard["case"]
         if c.get("driver") == "direct":
